@@ -198,15 +198,6 @@ func (k *Known) Learn(e *Event) {
 	}
 	note(e.T)
 	switch e.Op {
-	case "AddIndex":
-		k.idx[e.T] = addUniq(k.idx[e.T], e.IndexName())
-	case "CreateTable":
-		for _, g := range e.Gsis {
-			k.idx[e.T] = addUniq(k.idx[e.T], g.Name)
-		}
-		for _, g := range e.Lsis {
-			k.idx[e.T] = addUniq(k.idx[e.T], g.Name)
-		}
 	case "PutItem":
 		k.keys[e.T] = append(k.keys[e.T], e.Item)
 	case "GetItem", "UpdateItem", "DeleteItem":
@@ -279,7 +270,7 @@ func Observe(p Prim, k *Known, failMode map[string]string) Obs {
 					gr.shape = "get"
 					to.Gets = append(to.Gets, GetObs{Key: key, R: gr})
 				}
-				names := append([]string{}, k.idx[t]...)
+				names := append([]string{}, k.idx[c+"/"+t]...)
 				hashOf := map[string]string{}
 				for _, g := range append(append([]IdxDesc{}, d.Desc.Gsis...), d.Desc.Lsis...) {
 					names = addUniq(names, g.Name)
@@ -355,11 +346,26 @@ func (r *Runner) Step(e *Event, observe bool) ([]byte, error) {
 	r.known.Learn(e)
 	r1 := Exec(r.P1, e)
 	r2 := Exec(r.P2, e)
+	// index names are learned from requests the clients accepted (an index the clients then fail to show or to
+	// read is reported by the judge); a refused request teaches nothing
+	if r1.Err == "none" || r2.Err == "none" {
+		switch e.Op {
+		case "AddIndex":
+			r.known.idx[e.C+"/"+e.T] = addUniq(r.known.idx[e.C+"/"+e.T], e.IndexName())
+		case "CreateTable":
+			for _, g := range e.Gsis {
+				r.known.idx[e.C+"/"+e.T] = addUniq(r.known.idx[e.C+"/"+e.T], g.Name)
+			}
+			for _, g := range e.Lsis {
+				r.known.idx[e.C+"/"+e.T] = addUniq(r.known.idx[e.C+"/"+e.T], g.Name)
+			}
+		}
+	}
 	if e.Op == "DeleteIndex" && r1.Err == "none" && r2.Err == "none" {
-		r.known.forgetIndex(e.T, e.IndexName())
+		r.known.forgetIndex(e.C+"/"+e.T, e.IndexName())
 	}
 	if e.Op == "DeleteTable" && r1.Err == "none" && r2.Err == "none" {
-		delete(r.known.idx, e.T)
+		delete(r.known.idx, e.C+"/"+e.T)
 	}
 	if e.Op == "Fail" {
 		m := e.Mode
